@@ -508,7 +508,25 @@ class ScriptDirectory:
 
             dests = self.get_revisions(revision) or [None]
 
+            remaining_heads = filtered_heads
             for dest in dests:
+                if dest is not None and len(dests) > 1:
+                    # with several destinations, each one moves only the
+                    # current heads that share a lineage with it and that
+                    # were not already claimed by a previous destination
+                    filtered_heads = list(
+                        self.revision_map.filter_for_lineage(
+                            remaining_heads,
+                            dest.revision,
+                            include_dependencies=True,
+                        )
+                    )
+                    remaining_heads = [
+                        head
+                        for head in remaining_heads
+                        if head not in filtered_heads
+                    ]
+
                 if dest is None:
                     # dest is 'base'.  Return a "delete branch" migration
                     # for all applicable heads.
